@@ -17,7 +17,7 @@ from engine.common.core import Obligation, Cover, mval
 from engine.pyvc.values import *
 from engine.pyvc import models
 from engine.pyvc.loops import LoopSpec
-from engine.pyvc.harness import toolkit, raw, where, new_engine, run_paths, path_obligations, register_fn, note_engine, qualname, par_cases
+from engine.pyvc.harness import toolkit, raw, where, new_engine, run_paths, path_obligations, register_fn, note_engine, qualname, par_cases, exc_note, sect
 from contracts.py import trx as T
 from contracts.py.common import snapshot, attr, mk_sock, GhostSocket
 from contracts.py.tokens import IntTok, BadTok
@@ -91,15 +91,15 @@ def str_summary(E, func, args, kwargs):
 
 def build_py(run, prop=ID):
     E = new_engine()
-    build_versions(run, prop, E)
-    build_measure(run, prop, E)
-    build_commands(run, prop, E)
-    build_send_response(run, prop, E)
-    build_handle_rx(run, prop, E)
+    sect(run, build_versions, run, prop, E)
+    sect(run, build_measure, run, prop, E)
+    sect(run, build_commands, run, prop, E)
+    sect(run, build_send_response, run, prop, E)
+    sect(run, build_handle_rx, run, prop, E)
     # the POWERON/POWEROFF side effects are power_event_handler's: its contract (the one the summary above assumes) is discharged here as well
     from props import C12 as _C12
     E2 = new_engine()
-    _C12.build_handler(run, prop, E2)
+    sect(run, _C12.build_handler, run, prop, E2)
     E.stats["paths"] += E2.stats["paths"]
     note_engine(run, E)
     run.assume("TRXC token model: numeric arguments are decimal integer literals (IntTok); non-numeric arguments belong to C14")
@@ -189,7 +189,7 @@ def build_measure(run, prop, E):
         if out[0] == "cut":
             continue
         if out[0] == "raise":
-            run.add(Obligation(prop, qualname(f), "never_raises", p.pc, z3.BoolVal(False), kind="noexc", case=out[1].cls.__name__, where=where(f), tag=tag))
+            run.add(Obligation(prop, qualname(f), "never_raises", p.pc, z3.BoolVal(False), kind="noexc", note=exc_note(out[1]), case=out[1].cls.__name__, where=where(f), tag=tag))
             continue
         r = Z(out[1])
         i = z3.Int("i!0")
@@ -293,9 +293,12 @@ def build_commands(run, prop, E):
             if fhu is None:
                 ob("hopping_parameters_untouched", z3.BoolVal(fh is fh0))
             else:
-                _k, hsn, maio, ma = fhu
+                _k, hsn, maio, ma, accepted = fhu
                 ok = isinstance(fh, SObj) and fh is not fh0 and isinstance(fh.attrs.get("ma"), list) and len(fh.attrs["ma"]) == len(ma)
-                if ok:
+                if fh is fh0:
+                    ob("hopping_untouched_only_when_refused", z3.Not(accepted))
+                elif ok:
+                    ob("hopping_configured_only_when_accepted", accepted)
                     conj = [Z(fh.attrs["hsn"]) == hsn, Z(fh.attrs["maio"]) == maio]
                     for (a, b), (x, y) in zip(fh.attrs["ma"], ma):
                         conj += [Z(a) == x, Z(b) == y]
@@ -361,12 +364,14 @@ def build_send_response(run, prop, E):
 
             def setup(E):
                 link = SObj(cif.CTRLInterface, {"sock": mk_sock(E, "ctrl.sock"), "remote_addr": "127.0.0.1", "remote_port": 5801, "rsp_delay_ms": SInt(z3.Int("delay"))})
+                # class invariant of the link (0 after __init__, preserved by FAKE_TRXC_DELAY - obligation invariant_preserved of parse_cmd)
+                E.assume(z3.And(z3.Int("delay") >= 0, z3.Int("delay") <= T.TRXC_DELAY_MAX_MS))
                 return {"self": link, "req": list(toks)}
             remote = ("10.0.0.1", 4711)
             for p, ctx, out in run_paths(E, setup, lambda E, ctx: E.call(f, [ctx["self"], ctx["req"], remote, SInt(code)] + ([par] if par else []))):
                 tag = {"side": "py", "what": "send_response"}
                 if out[0] == "raise":
-                    run.add(Obligation(prop, qualname(f), "never_raises", p.pc, z3.BoolVal(False), kind="noexc", case=cs + "," + out[1].cls.__name__, where=where(f), tag=tag))
+                    run.add(Obligation(prop, qualname(f), "never_raises", p.pc, z3.BoolVal(False), kind="noexc", note=exc_note(out[1]), case=cs + "," + out[1].cls.__name__, where=where(f), tag=tag))
                     continue
                 sent = p.ghost.get("sent", [])
                 ok = len(sent) == 1 and sent[0][2] == remote and sent[0][0] is ctx["self"].attrs["sock"]
@@ -470,7 +475,7 @@ def build_handle_rx(run, prop, E):
                 tag = {"side": "py", "what": "handle_rx", "kind": kind, "ntok": ntok}
                 run.add(*path_obligations(run, prop, f, p, cs, tag=tag))
                 if out[0] == "raise":
-                    run.add(Obligation(prop, qualname(f), "never_raises", p.pc, z3.BoolVal(False), kind="noexc", case=cs + "," + out[1].cls.__name__, where=where(f), tag=tag))
+                    run.add(Obligation(prop, qualname(f), "never_raises", p.pc, z3.BoolVal(False), kind="noexc", note=exc_note(out[1]), case=cs + "," + out[1].cls.__name__, where=where(f), tag=tag))
                     continue
                 parsed, resp = p.ghost.get("parsed", []), p.ghost.get("responses", [])
                 if kind != "cmd":
@@ -548,6 +553,15 @@ def replay_py(payload):
         bad = []
         if got_status != exp_status:
             bad.append(("status", got_status, exp_status))
+        got_res = list(rc[1]) if isinstance(rc, tuple) and len(rc) > 1 else None
+        if results is None:
+            want_res = None
+        elif results[0] == "nomtxpower":
+            want_res = [str(before["tx_power_base"])]
+        else:
+            want_res = [str(-77)] if exp_status == 0 else None
+        if exp_status == 0 and got_res != want_res:
+            bad.append(("results", got_res, want_res))
         for key in list(STATE_FIELDS) + list(BOOL_FIELDS):
             want = z3.simplify(updates.get(key, st[key]))
             want = want.as_long() if z3.is_int_value(want) else z3.is_true(want)
